@@ -449,7 +449,7 @@ func (s *tsys) run() {
 		cn := s.newConn()
 		s.dc = NewDnsConn(TraditionalDnsConnOpts{WithLengthHeader: s.tcp, MaxConcurrentQuery: o.MaxCq, IdleTimeout: o.IdleTimeout}, cn.a)
 		cn.dc = s.dc
-		s.dc.nextQid = o.StartQid
+		setUintField(s.dc, "nextQid", uint64(o.StartQid))
 		for k := 0; k < o.SeedQueue; k++ {
 			s.dc.queue[uint32(o.StartQid+uint16(k))] = make(chan *[]byte, 1)
 		}
@@ -549,7 +549,7 @@ func (s *tsys) doCall(ci int, c *call) {
 	} else {
 		if s.opt.RewindQid {
 			s.dc.queueMu.Lock()
-			s.dc.nextQid = s.opt.StartQid
+			setUintField(s.dc, "nextQid", uint64(s.opt.StartQid))
 			s.dc.queueMu.Unlock()
 		}
 		s.reserving++
